@@ -1531,7 +1531,8 @@ Inductive outcome :=
 | OReply (s : list Z)       (* the handler's return value: ACK, NAK or a data frame *)
 | OValueError               (* _parse: unknown command code *)
 | OException                (* any other exception (IndexError, OverflowError, ...) *)
-| OBlock.                   (* the call never returns (Queue.get on an empty queue) *)
+| OBlock                    (* the call never returns (Queue.get on an empty queue) *)
+| OSilent.                  (* _parse returns True: nothing is sent back *)
 
 Definition ack : list Z := [6].
 Definition nak : list Z := [21].
@@ -1661,6 +1662,26 @@ Definition handle (code byte_start : Z) (params : list Z) (u : usd) : usd * outc
     end
   else (u, OValueError).                              (* functions.get(command) is None *)
 
+(* System._parse, tail of the unicast path: after the handler returned, a unit whose
+   delay_multiplier is 255 (read AFTER the command ran) does not answer (_parse returns True) *)
+Definition parse1 (code byte_start : Z) (params : list Z) (u : usd) : usd * outcome :=
+  let '(u', o) := handle code byte_start params u in
+  (u', match o with
+       | OReply r => if delay_multiplier u' =? 255 then OSilent else OReply r
+       | _ => o
+       end).
+
+(* System.functions *)
+Definition known_code (code : Z) : bool :=
+  existsb (Z.eqb code)
+    [1; 2; 16; 17; 18; 19; 20; 32; 33; 34; 35; 37; 38; 39; 40; 41; 42; 43; 44; 45; 48; 49; 50; 53].
+
+(* broadcast path of the handlers (params[0] is None): the method is called on every unit of the
+   line with the same decoded arguments and its result is ignored; getters and refused parameters
+   do nothing; nothing is answered.  The effect on each unit is that of the unicast command. *)
+Definition bcast (code byte_start : Z) (params : list Z) (us : list usd) : list usd :=
+  map (fun u => fst (handle code byte_start params u)) us.
+
 (* ------------------------------------------------------------------ *)
 (* histories: commands interleaved with iterations of the positioning thread *)
 Inductive event :=
@@ -1673,7 +1694,7 @@ Definition sim := (usd * Z)%type.
 Definition step (s : sim) (e : event) : sim * option outcome :=
   let '(u, now) := s in
   match e with
-  | ECmd c b p => let '(u', o) := handle c b p u in ((u', now), Some o)
+  | ECmd c b p => let '(u', o) := parse1 c b p u in ((u', now), Some o)
   | ETick k => ((tick k (now + k) u, now + k), None)
   end.
 
@@ -1682,4 +1703,41 @@ Fixpoint run (s : sim) (h : list event) : sim * list (option outcome) :=
   | [] => (s, [])
   | e :: h' => let '(s1, o) := step s e in
                let '(s2, os) := run s1 h' in (s2, o :: os)
+  end.
+
+(* ------------------------------------------------------------------ *)
+(* a line of several units: unicast to unit j, broadcast, one iteration of the positioning thread
+   (calc_position for every unit with the same elapsed time) *)
+Inductive levent :=
+| LUni (j : nat) (code byte_start : Z) (params : list Z)
+| LBcast (code byte_start : Z) (params : list Z)
+| LTick (k : Z).
+
+Definition lstate := (list usd * Z)%type.
+
+Fixpoint upd_nth (us : list usd) (j : nat) (x : usd) : list usd :=
+  match us, j with
+  | [], _ => []
+  | _ :: t, O => x :: t
+  | h :: t, S j' => h :: upd_nth t j' x
+  end.
+
+Definition lstep (s : lstate) (e : levent) : lstate * option outcome :=
+  let '(us, now) := s in
+  match e with
+  | LUni j c b p =>
+      match nth_error us j with
+      | Some u => let '(u', o) := parse1 c b p u in ((upd_nth us j u', now), Some o)
+      | None => ((us, now), Some OException)
+      end
+  | LBcast c b p =>
+      if known_code c then ((bcast c b p us, now), Some OSilent) else ((us, now), Some OValueError)
+  | LTick k => ((map (tick k (now + k)) us, now + k), None)
+  end.
+
+Fixpoint lrun (s : lstate) (h : list levent) : lstate * list (option outcome) :=
+  match h with
+  | [] => (s, [])
+  | e :: h' => let '(s1, o) := lstep s e in
+               let '(s2, os) := lrun s1 h' in (s2, o :: os)
   end.
